@@ -144,7 +144,7 @@ func (c *Ctx) watchdog() {
 			for _, l := range strings.Split(string(buf), "\n") {
 				if strings.HasPrefix(l, "github.com/insomniacslk/dhcp/") {
 					site = strings.TrimPrefix(l, "github.com/insomniacslk/dhcp/")
-					if i := strings.IndexByte(site, '('); i > 0 {
+					if i := strings.LastIndexByte(site, '('); i > 0 {
 						site = site[:i]
 					}
 					break
